@@ -64,6 +64,19 @@ from os import path as path2, path as pathx
 importlib = __import__('importlib')
 def f(defx, classy=1): pass
 ''',
+    'words-that-occur-twice': '''from datetime import datetime
+from os.path import path
+import bb, aa as bb
+from os import sep, sep as os
+import os.path as path2, path2
+from x import (a1 as b1,
+               b1 as a1)
+import pkg.pkg as pkg
+from pkg.sub import sub as sub, pkg as sub
+def f():
+    from time import time; import q as time, time
+    return time
+''',
     'same-line-reads': '''ys = [1, 2]
 z = [y for y in ys]
 w = [(a, b) for a in ys for b in ys]
@@ -120,10 +133,10 @@ print(%(verdict)r)
 
 
 @harness(['C11'], 'supp.scope.SourceScope.all_names / supp.linter.lint / supp.assistant.location [positions of every binding on a corpus]',
-         bounded='4 programs holding every binding construct (imports of every form over one and several lines, every parameter kind, tuple / starred / '
+         bounded='6 programs holding every binding construct (imports of every form over one and several lines, every parameter kind, tuple / starred / '
                  'chained / annotated targets, for / with / except / comprehension / walrus / lambda / def / class / async def, PEP 695 headers, match '
                  'captures) in conventional and awkward layouts (continuation lines inside an indented block, tabs and runs of blanks before a name, '
-                 '`;`-joined statements, one-line compound statements); every binding of all_names, every W01 / W02, location() from every read (cursor after the first and after the last character), including reads with several alternative bindings on the line of the cursor')
+                 '`;`-joined statements, one-line compound statements, imports whose bound word occurs earlier in the statement); every binding of all_names, every W01 / W02, location() from every read (cursor after the first and after the last character), including reads with several alternative bindings on the line of the cursor')
 def binding_positions(run):
     """BOUNDED stand-in: the text at every reported position is the bound identifier; all_names, lint and location agree.  Not counted as proved."""
     import logging
@@ -146,9 +159,15 @@ def binding_positions(run):
             src = Source(text, '<c11>')
             scope = extract_scope(src, project)
             handler_names = set()
+            alias_at = {}
             for n in ast.walk(tree):
                 if isinstance(n, ast.ExceptHandler) and n.name:
                     handler_names.add(n.name)
+                elif isinstance(n, ast.alias) and n.name != '*':
+                    # the occurrence that binds: the `as` name, else the first component of the dotted name
+                    ident = n.asname or n.name.partition('.')[0]
+                    alias_at.setdefault(ident, []).append((n.end_lineno, n.end_col_offset - len(ident)) if n.asname else (n.lineno, n.col_offset))
+            imported_at = {}
             declared = {}
             bad = []
             count = 0
@@ -165,6 +184,12 @@ def binding_positions(run):
                 got = text_at(lines, pos, len(want))
                 if got != want:
                     bad.append((ident, tuple(pos), 'all_names', got))
+                if type(name).__name__ == 'ImportedName':
+                    imported_at.setdefault(ident, []).append(tuple(pos))
+            for ident in set(alias_at) | set(imported_at):
+                # each import binding at its own occurrence of the word (the same word may occur earlier in the statement)
+                if sorted(alias_at.get(ident, [])) != sorted(imported_at.get(ident, [])):
+                    bad.append((ident, sorted(imported_at.get(ident, [])), 'all_names (the aliases binding it are at %r)' % sorted(alias_at.get(ident, [])), ident))
             for d in L.lint(project, text):
                 if d[0] in ('W01', 'W02'):
                     ident = d[1].split(': ')[1]
